@@ -29,20 +29,27 @@ def run_check(pid):
     r=sh(f'{SM}/target/debug/vcheck {pid} --tier quick --seed 1', env=env)
     lines=(r.stdout+r.stderr).splitlines()
     first=''
-    for i,l in enumerate(lines):
-        if l.startswith('VIOLATION') and i+1<len(lines):
-            first=lines[i+1].strip()[:300]; break
+    for l in lines:
+        if l.startswith('  [') or l.startswith('error[E'):
+            first=l.strip()[:300]; break
     return {'rc':r.returncode,'first':first,'violation_lines':sum(1 for l in lines if l.startswith('VIOLATION'))}
 def main():
     args=[a for a in sys.argv[1:] if not a.startswith('--')]
     allc='--all-checks' in sys.argv
     setup()
-    seeds=args or sorted(os.path.relpath(os.path.dirname(p),'/verif/seeded') for p in glob.glob('/verif/seeded/C*/*/patch.diff'))
-    resf='/verif/seeded/RESULTS.json'
+    mut='--mutants' in sys.argv
+    if mut:
+        index=json.load(open('/verif/mutants/INDEX.json'))
+        seeds=args or sorted(k for k,v in index.items() if v.get('status')=='kept' or os.path.exists(f'/verif/mutants/{k}.patch') and 'property' in v)
+        resf='/verif/mutants/RESULTS.json'
+    else:
+        seeds=args or sorted(os.path.relpath(os.path.dirname(p),'/verif/seeded') for p in glob.glob('/verif/seeded/C*/*/patch.diff'))
+        resf='/verif/seeded/RESULTS.json'
     res=json.load(open(resf)) if os.path.exists(resf) else {}
     for s in seeds:
-        pid=s.split('/')[0]
-        ap=sh(f'git -C {REPO} apply /verif/seeded/{s}/patch.diff')
+        pid=index[s]['property'] if mut else s.split('/')[0]
+        patch=f'/verif/mutants/{s}.patch' if mut else f'/verif/seeded/{s}/patch.diff'
+        ap=sh(f'git -C {REPO} apply {patch}')
         if ap.returncode!=0:
             res[s]={'error':'patch does not apply: '+ap.stderr[:200]}; continue
         checks=[f'C{i:02d}' for i in range(1,21)] if allc else [pid]
